@@ -60,7 +60,9 @@ type Exec struct {
 	topVars      map[string]Value
 	resumeHeader *ssa.BasicBlock
 	keepTopFrame bool
+	topFreeVars  []Value
 	noCheck      int
+	extra        map[string]interface{}
 	inputs       []namedTerm
 	fnNotes      map[string][]string
 	pathTrace    []string
@@ -69,7 +71,7 @@ type Exec struct {
 func NewExec(prog *ssa.Program, pkgs map[string]*ssa.Package, contracts map[string]*Contract) *Exec {
 	ex := &Exec{prog: prog, pkgs: pkgs, contracts: contracts, globalCells: map[*ssa.Global]int{},
 		globalVals: map[int]Value{}, globalHeap: map[int]*Term{}, maxPaths: 4096,
-		unmodelled: map[string]int{}, l0used: map[string]int{}, fnNotes: map[string][]string{}}
+		unmodelled: map[string]int{}, l0used: map[string]int{}, fnNotes: map[string][]string{}, extra: map[string]interface{}{}}
 	return ex
 }
 
@@ -179,6 +181,13 @@ func (ex *Exec) runFunc(st *State, fn *ssa.Function, args []Value, k cont) {
 	fr := &Frame{Fn: fn, Regs: map[ssa.Value]Value{}}
 	for i, p := range fn.Params {
 		fr.Regs[p] = args[i]
+	}
+	if len(st.frames) == 0 && fn == ex.top {
+		for i, fv := range fn.FreeVars {
+			if i < len(ex.topFreeVars) {
+				fr.Regs[fv] = ex.topFreeVars[i]
+			}
+		}
 	}
 	st.frames = append(st.frames, fr)
 	depth := len(st.frames)
@@ -1112,9 +1121,16 @@ func (ex *Exec) fresh(st *State, t types.Type, hint string, depth int) Value {
 		return out
 	case kPtr:
 		et := t.(*types.Pointer).Elem()
-		if classify(et) == kStruct && depth <= 3 {
-			c := ex.newCell(st, ex.fresh(st, et, hint, depth+1))
-			return VPtr{Cell: c}
+		switch classify(et) {
+		case kStruct, kList, kBytes, kStr, kInt, kBool, kBig:
+			if depth <= 3 {
+				c := ex.newCell(st, ex.fresh(st, et, hint, depth+1))
+				if _, isProto := protoTypes[protoName(et)]; depth > 0 && isProto {
+					// a pointer to a proto message stored inside an input value (optional field) may be nil
+					return VPtr{Cell: c, NilT: Fresh(hint+".isnil", SBool)}
+				}
+				return VPtr{Cell: c}
+			}
 		}
 		return VOpaque{"ptr:" + typeShort(t)}
 	case kErr:
